@@ -11,6 +11,9 @@ C18 -- format upgrade: content preserved, idempotent, resumable. Decided statica
  R5  idempotence of the alias-dimension conversion: after the conversion the collector's predicate is false (the link
      exists, the alias link is gone), and the new link gets id, type, index and the hard link to the parent array before
      the alias link is deleted
+ R8  resumability per object: what a conversion writes in one file session (between two opens of the file) was read from
+     the file in that same session -- data of an old record carried in memory past the session that removed the record is
+     lost by an interruption between the two sessions, and the re-check then skips the record for good
  R6  field preservation of the property conversion: every field read from the old record flows into what is written;
      the choice between keeping all per-value extras and keeping a single one is made by exact comparison (no
      tolerance-based test); the replaced dataset is re-created under the same name
@@ -53,6 +56,8 @@ def run(M, rep, tier, only=None):
                   technique="abstract storage state at exit vs the collector's predicate; event order")
     R6 = rep.rule("C18.R6", "property conversion carries every old field over; exact comparison decides what is kept", floor=2,
                   technique="read-to-write data flow on all abstract paths; callee classification of guard terms")
+    R8 = rep.rule("C18.R8", "no old-record data is carried in memory across file sessions after the record was replaced", floor=3,
+                  technique="read-to-write data flow per file session (events between two opens) on all abstract paths of each task closure")
     if um is None:
         rep.bad(R1, "nixio.cmd.upgrade", "required mechanism not found")
         return
@@ -206,6 +211,35 @@ def run(M, rep, tier, only=None):
         rep.check(R4, key, bad is None and nconv > 0 and nskip > 0, bad[1] if bad else
                   "required mechanism not found: %d converting path(s), %d skipping path(s) -- a repeated run must be able to skip what is done" % (nconv, nskip),
                   site="%s:%d" % (f.file, f.node.lineno), detail=describe_path(bad[0], 40) if bad else None)
+        bad8 = None
+        n8 = 0
+        for p in ps:
+            opens = [e.idx for e in p.events if e.kind == "raw" and e.op in ("h5py.File", "h5py.h5f.open")]
+            ws = [e for e in p.events if is_write(e)]
+            if not ws:
+                continue
+            n8 += 1
+            removed = [e.idx for e in ws if e.op.endswith("__delitem__")]
+            for e in ws:
+                start = max([i for i in opens if i < e.idx] or [-1])
+                if not removed or min(removed) >= start:
+                    continue        # nothing was replaced before this session began
+                terms = [a.t for a in e.args] + [v.t for k2, v in e.kw.items() if k2 != "__effect__"]
+                for t in terms:
+                    for x in subterms(t):
+                        if not (x and x[0] in ("rd", "sub") and isinstance(x[-1], tuple) and x[-1][:1] == ("const",) and
+                                isinstance(x[-1][1], str)):
+                            continue
+                        fld = x[-1]
+                        here = [r for r in p.events if start < r.idx < e.idx and r.kind == "raw" and not is_write(r) and
+                                r.key is not None and r.key.t == fld]
+                        if not here and bad8 is None:
+                            bad8 = (p, e, "%s writes the old field %r in a later file session than the one that read it and replaced the "
+                                    "record: an interruption between the two sessions loses the field, and the repeated run skips the "
+                                    "record because it looks converted" % (e.op, fld[1]))
+        rep.check(R8, key, bad8 is None and n8 > 0, bad8[2] if bad8 else "no converting path",
+                  site=(bad8[1].site if bad8 else "%s:%d" % (f.file, f.node.lineno)), detail=describe_path(bad8[0], 40) if bad8 else None,
+                  what="%d converting paths" % n8)
         if k == "alias":
             bad5 = None
             n5 = 0
